@@ -2,7 +2,7 @@ SPECIFICATION Spec
 CONSTANTS
   PlainNames <- MC_Names2
   HostileNames <- MC_NoHostile
-  MaxOps = 3
+  MaxOps = 2
   MaxIno = 8
   Cfg <- MC_Cfg_seal
   TaintOn = TRUE
